@@ -99,6 +99,8 @@ pub struct Router {
     // `Router` needs to be `Clone + Send`, and we need to `task.await` in its `shutdown()` impl.
     task: Arc<Mutex<Option<AbortOnDropHandle<()>>>>,
     cancel_token: CancellationToken,
+    /// Cancelled once the main run task has terminated.
+    done_token: CancellationToken,
 }
 
 /// Builder for creating a [`Router`] for accepting protocols.
@@ -427,15 +429,15 @@ impl Router {
     /// If some [`ProtocolHandler`] panicked in the accept loop, this will propagate
     /// that panic into the result here.
     pub async fn shutdown(&self) -> Result<(), n0_future::task::JoinError> {
-        if self.is_shutdown() {
-            return Ok(());
-        }
-
         // Trigger shutdown of the main run task by activating the cancel token.
         self.cancel_token.cancel();
 
-        // Wait for the main task to terminate.
+        // Wait for the main task to terminate. Every caller waits here, so concurrent or
+        // repeated calls (on any clone) only return once the shutdown has actually completed,
+        // and dropping one call's future does not abort the shutdown for the others.
+        self.done_token.cancelled().await;
 
+        // The first caller to get here collects the result of the (now finished) task.
         // MutexGuard is not held across await point
         let task = self.task.lock().expect("poisoned").take();
         if let Some(task) = task {
@@ -516,8 +518,13 @@ impl RouterBuilder {
         // Our own shutdown works with a cancellation token.
         let cancel = CancellationToken::new();
         let cancel_token = cancel.clone();
+        // Signals that the run task has terminated (finished, panicked or was aborted).
+        let done = CancellationToken::new();
+        let done_guard = done.clone().drop_guard();
 
         let run_loop_fut = async move {
+            // Dropped last, when this future exits or is dropped.
+            let _done_guard = done_guard;
             // Make sure to cancel the token, if this future ever exits.
             let _cancel_guard = cancel_token.clone().drop_guard();
             // We create a separate cancellation token to stop any `ProtocolHandler::accept` futures
@@ -618,6 +625,7 @@ impl RouterBuilder {
             endpoint: self.endpoint,
             task: Arc::new(Mutex::new(Some(task))),
             cancel_token: cancel,
+            done_token: done,
         }
     }
 }
